@@ -751,6 +751,70 @@ Proof.
     split; [rewrite upd_same; now rewrite HT3|]. intro y. simpl. lia.
 Qed.
 
+(* an elementwise cast, then the reduction in the cast's type:  Reduce (o1 x)  — jnp.sum / jnp.prod on bool and small integers
+   (JAX promotes to the default integer width; the plugin casts to that type and reduces there) *)
+Definition gk_cr (o1 : oop) (rk : rkind) (sbr : ity) (mask : list bool) (J : list sval -> sval) : gkern :=
+  mkG 1 (fun args next =>
+           ([mkNode (oname o1) (enc_op o1) args [] [next];
+             mkNode (rname rk) (enc_red sbr mask) [next] [] [S next]], S next, S (S next)))
+      (fun Xs => match Xs with
+                 | [a] => if red_ok rk sbr mask (c_shape a) then Some (tcanon (treduce J mask (decanon a))) else None
+                 | _ => None end).
+Lemma gk_cr_ok o1 rk sbr mask J :
+  oarity o1 = 1 -> osb_ok o1 -> (0 <= snd sbr)%Z ->
+  (forall s l, red_ok rk sbr mask s = true -> sred_onnx rk sbr (map (sem1 o1) l) = J l) ->
+  sgkern_ok (gk_cr o1 rk sbr mask J).
+Proof.
+  intros Ha1 Hs1 Hb Hlaw args next nodes res next' g Xs out Hem Hl Hla Hargs Hfr Hf. simpl in *. injection Hem as <- <- <-.
+  destruct Xs as [|a [|? ?]]; try discriminate. destruct args as [|x [|? ?]]; try discriminate.
+  destruct (red_ok rk sbr mask (c_shape a)) eqn:Hok; [|discriminate]. injection Hf as <-.
+  destruct (Hargs 0 ltac:(simpl; lia)) as [Hx Hgx]. simpl in Hx, Hgx.
+  set (T1 := tcanon (tmap (sem1 o1) (decanon a))).
+  set (T2 := tcanon (treduce (sred_onnx rk sbr) mask (decanon T1))).
+  assert (Hlen : length mask = length (c_shape a)).
+  { unfold red_ok in Hok. apply andb_prop in Hok as [Hm _]. now apply Nat.eqb_eq in Hm. }
+  assert (HT2 : T2 = tcanon (treduce J mask (decanon a))).
+  { unfold T2. apply canon_teq.
+    eapply teq_trans; [apply treduce_teq; [unfold T1; apply decanon_canon | exact Hlen]|].
+    split; [reflexivity|]. intros idx Hi. cbn [tmap treduce at_ shape] in *.
+    rewrite red_elems_tmap. now apply (Hlaw (c_shape a)). }
+  exists (upd cten (upd cten g next T1) (S next) T2). split.
+  - rewrite eval_cons_s.
+    match goal with |- match ?St with _ => _ end = _ =>
+      replace St with (Some (upd cten g next T1)) by (symmetry; exact (step_node1 ssem ssem_op g o1 x a next Hs1 Ha1 Hgx)) end.
+    assert (Hst2 : step cten ssem (upd cten g next T1) (mkNode (rname rk) (enc_red sbr mask) [next] [] [S next])
+                   = Some (upd cten (upd cten g next T1) (S next) T2)).
+    { unfold step, n_uses; simpl. rewrite upd_same. rewrite ssem_reduce by exact Hb.
+      change (c_shape T1) with (c_shape a). rewrite Hok. reflexivity. }
+    rewrite eval_cons_s.
+    match goal with |- match ?St with _ => _ end = _ => replace St with (Some (upd cten (upd cten g next T1) (S next) T2)) by (symmetry; exact Hst2) end.
+    reflexivity.
+  - split; [lia|]. split; [intros m Hm; rewrite !upd_other by lia; reflexivity|].
+    split; [intros m Hm; rewrite !upd_other by lia; apply Hfr; lia|].
+    split; [rewrite upd_same; now rewrite HT2|]. intro y. simpl. lia.
+Qed.
+Lemma lz_map_cast sbw l : lz (map (sem1 (OCast sbw)) l) = map (o_cast sbw) (lz l).
+Proof. unfold lz. rewrite !map_map. apply map_ext. intro v. reflexivity. Qed.
+(* integer operand: Cast(sbw) -> ReduceSum / ReduceProd in sbw;  JAX: the sum / product of the operand in sbw *)
+Definition gk_reduce_cast (rk : rkind) (sbw : ity) (mask : list bool) : gkern :=
+  gk_cr (OCast sbw) rk sbw mask (sred_jax rk sbw).
+Lemma gk_reduce_cast_ok rk sbw mask : (rk = RSum \/ rk = RProd) -> (0 <= snd sbw)%Z -> sgkern_ok (gk_reduce_cast rk sbw mask).
+Proof.
+  intros Hrk Hb. apply gk_cr_ok; try reflexivity; try exact Hb.
+  intros s l Hok. unfold red_ok in Hok. apply andb_prop in Hok as [_ Hok].
+  destruct Hrk as [-> | ->]; cbn [sred_onnx sred_jax]; rewrite lz_map_cast; f_equal; apply Z.ltb_lt in Hok.
+  - now apply reduce_sum_cast_correct.
+  - now apply reduce_prod_cast_correct.
+Qed.
+(* bool operand: Cast(bool -> sbw) -> Reduce*;  JAX: convert_element_type to sbw, then the reduction in sbw *)
+Definition gk_reduce_cast_bool (rk : rkind) (sbw : ity) (mask : list bool) : gkern :=
+  gk_cr (OCastOfBool sbw) rk sbw mask (fun l => sred_jax rk sbw (map (sem1 (OCastOfBool sbw)) l)).
+Lemma gk_reduce_cast_bool_ok rk sbw mask : (0 <= snd sbw)%Z -> sgkern_ok (gk_reduce_cast_bool rk sbw mask).
+Proof.
+  intro Hb. apply gk_cr_ok; try reflexivity; try exact Hb.
+  intros s l Hok. now apply (sred_correct rk sbw mask s).
+Qed.
+
 Definition I64r : ity := (true, 64%Z).
 Lemma prj_VZ z : prj SZ (VZ z) = z. Proof. reflexivity. Qed.
 Lemma prj_VB b : prj SB (VB b) = b. Proof. reflexivity. Qed.
@@ -1015,6 +1079,8 @@ Inductive gspec :=
 | GReduceSum64 (sb : ity) (mask : list bool)             (* reduce_sum on uint8 / uint16 / uint32 *)
 | GReduceProd64 (sb : ity) (mask : list bool)            (* reduce_prod through an int64 work type *)
 | GReduceMax32 (sb : ity) (mask : list bool) | GReduceMin32 (sb : ity) (mask : list bool)   (* through an int32 work type *)
+| GReduceCast (rk : rkind) (sbw : ity) (mask : list bool)      (* jnp.sum / jnp.prod of small integers, in the promoted type *)
+| GReduceCastB (rk : rkind) (sbw : ity) (mask : list bool)     (* ... of booleans *)
 | GReduceAnd (mask : list bool) | GReduceOr (mask : list bool)
 | GConcat (n axis : nat)
 | GSlice (starts limits strides : list nat)
@@ -1033,6 +1099,10 @@ Definition gk_of (s : gspec) : option gkern :=
   | GReduceProd64 sb m => if (0 <=? snd sb)%Z then Some (gk_reduce_prod_via64 sb m) else None
   | GReduceMax32 sb m => if (0 <=? snd sb)%Z then Some (gk_reduce_mm_via32 RMax sb m) else None
   | GReduceMin32 sb m => if (0 <=? snd sb)%Z then Some (gk_reduce_mm_via32 RMin sb m) else None
+  | GReduceCast rk sbw m => match rk with
+                            | RSum | RProd => if (0 <=? snd sbw)%Z then Some (gk_reduce_cast rk sbw m) else None
+                            | _ => None end
+  | GReduceCastB rk sbw m => if (0 <=? snd sbw)%Z then Some (gk_reduce_cast_bool rk sbw m) else None
   | GReduceAnd m => Some (gk_reduce_and m)
   | GReduceOr m => Some (gk_reduce_or m)
   | GConcat n ax => Some (gk_concat n ax)
@@ -1056,6 +1126,9 @@ Proof.
   - destruct (0 <=? snd sb)%Z eqn:E; [|discriminate]. injection H as <-. apply gk_reduce_prod_via64_ok. now apply Z.leb_le.
   - destruct (0 <=? snd sb)%Z eqn:E; [|discriminate]. injection H as <-. apply gk_reduce_mm_via32_ok; [now left | now apply Z.leb_le].
   - destruct (0 <=? snd sb)%Z eqn:E; [|discriminate]. injection H as <-. apply gk_reduce_mm_via32_ok; [now right | now apply Z.leb_le].
+  - destruct rk; try discriminate; (destruct (0 <=? snd sbw)%Z eqn:E; [|discriminate]); injection H as <-;
+      apply gk_reduce_cast_ok; try (now apply Z.leb_le); [now left | now right].
+  - destruct (0 <=? snd sbw)%Z eqn:E; [|discriminate]. injection H as <-. apply gk_reduce_cast_bool_ok. now apply Z.leb_le.
   - apply gk_reduce_and_ok.
   - apply gk_reduce_or_ok.
   - apply gk_concat_ok.
